@@ -11,7 +11,8 @@ ID = "C12"
 RULE = ("mpi generate: the 2x2x3 policy table (enumerated completely, cycled) x vendor/class names (ASCII, non-ASCII, "
         "empty, 300 chars) x (address,size) with size in {48,49,64,256,4096} and addresses at 64 KiB / 16 MiB "
         "boundaries and 2^32-size; mpi merge: 0-8 records placed inside the area, on both borders, one byte outside and "
-        "overlapping by one byte; routes MpiGenerator.generate/merge, cmd_mpi.main, CLI in-process, sampled real CLI. "
+        "overlapping by one byte, given in random order, half of the sets bundled into multi-segment input files whose gaps "
+        "hold records of other inputs; routes MpiGenerator.generate/merge, cmd_mpi.main, CLI in-process, sampled real CLI. "
         "distinct = digest of the output file / of the rejected configuration; non-trivial = every case (each has a "
         "non-default policy, name or address, or is a merge)")
 MIN_DISTINCT = {"quick": 300, "thorough": 3000}
@@ -232,6 +233,26 @@ def case_merge(rec, case):
         files.append(f)
         if addr <= start and start + ln <= addr + size:
             area[start - addr:start - addr + ln] = data
+    # some inputs carry SEVERAL records (multi-segment hex files) with records of other inputs lying in their gaps
+    if len(files) >= 2 and scenario != "overlap" and r.random() < 0.5:
+        from intelhex import IntelHex
+        ng = r.randrange(1, len(files))
+        groups = {}
+        for f in files:
+            groups.setdefault(r.randrange(ng), []).append(f)
+        files = []
+        for g in groups.values():
+            if len(g) == 1:
+                files.append(g[0])
+                continue
+            ih = IntelHex()
+            for f in g:
+                ih.merge(IntelHex(f), overlap="error")
+                os.unlink(f)
+            nf = drive.fresh(wd, ".hex")
+            ih.write_hex_file(nf)
+            files.append(nf)
+            rec.count("merge:multi-segment-inputs")
     order = list(range(len(files)))
     r.shuffle(order)
     files = [files[i] for i in order]
@@ -306,6 +327,8 @@ def finish(merged, tier, seed):
     for s in ("outside-low/rejecting", "outside-high/rejecting", "overlap/rejecting", "border-low", "border-high"):
         if cnt.get("merge:scenario:" + s, 0) < 3:
             merged["inconclusive"].append(f"merge scenario {s} observed fewer than 3 times")
+    if cnt.get("merge:multi-segment-inputs", 0) < 20:
+        merged["inconclusive"].append("fewer than 20 multi-segment merge inputs observed")
     return {}
 
 
